@@ -13,7 +13,10 @@ RULE = ("histories drawn from one PRNG (VERIF_SEED): GRcreate (dims 1..9 x 1..9,
         "whole), GRreqimageil (0..2), GRreadimage (whole / rectangle / strided), GRgetiminfo, raw element dump and "
         "GRend/Hclose/reopen; palettes (GRwritelut, GRreqlutil, GRreadlut, GRgetlutinfo, invalid palette shapes); "
         "two images interleaved in one file; direct calls of GRIil_convert for all 3x3 interlace pairs; rejected "
-        "arguments (stride or count < 1).  Compressed (non-chunked) images are written once (the format does not "
+        "arguments (stride or count < 1); palettes attached or replaced in a LATER session for every image kind; "
+        "old-style rasters (DFR8addimage with and without RLE, widths 1..9, 60, 119..131, 255..260 with runs of "
+        "119..300 equal pixels; DF24addimage) read, dumped, rewritten through GR and reopened; direct DFCIrle + "
+        "DFCIunrle on rows of up to 400 bytes; GRwritechunk / GRreadchunk on chunk lengths dividing the dimensions.  Compressed (non-chunked) images are written once (the format does not "
         "allow partial rewrites) and then only read.  A case is one compared operation result; it is non-trivial when "
         "it lies in the property's domain and transfers at least one pixel; distinct by (geometry, interlaces, "
         "storage, region, data)")
@@ -21,7 +24,8 @@ TRUSTED = ["Coq 8.16.1 kernel",
            "translator gen/gen_consts.py + plugin gen/plugins/gr_exprs.py (initial component pointers, pixel/line "
            "increments, loop bounds, copy length and wrap condition of GRIil_convert; img_offset, fill_lo/hi/line/"
            "stride sizes, pix_len, stride_add, row increments and trailing-line loops of GRwriteimage/GRreadimage; "
-           "count[] of GRreadlut) run on mfgr.c through gcc -E",
+           "count[] of GRreadlut; run window, run threshold, literal flush limit, count flag and mask of dfrle.c) "
+           "run on mfgr.c / dfrle.c through gcc -E",
            "extraction: Require Extraction + ExtrOcamlBasic; no Extract Constant; nat/Z extracted as inductives",
            "OCaml driver extract/gr_main.ml, C harness harness/drive_gr.c (Hseek/Hwrite/Hread observed through "
            "-Wl,--wrap), comparison in checks/C09.py",
